@@ -188,6 +188,12 @@ func (store *BaseStore[E]) Create(ctx MutateContext, entity E) error {
 		return errors.Errorf("an entity of type %v already exists with id %v", store.GetSingularEntityType(), entity.GetId())
 	}
 
+	// a child store only sees its own extension data above; the id may still be taken by an entity of the
+	// parent store, whose fields would be overwritten without its indexes being maintained
+	if store.parent != nil && store.parent.IsEntityPresent(ctx.Tx(), entity.GetId()) {
+		return errors.Errorf("an entity of type %v already exists with id %v", store.parent.GetSingularEntityType(), entity.GetId())
+	}
+
 	bucket := store.getOrCreateEntityBucket(ctx.Tx(), []byte(entity.GetId()))
 	persistCtx := &PersistContext{
 		MutateContext: ctx,
